@@ -187,6 +187,9 @@ impl World {
         let dir = self.root.join(format!("authwal{n}"));
         unsafe { std::env::set_var("SNELDB_AUTH_WAL_DIR", &dir) };
         let am = Arc::new(AuthManager::new(self.sm.clone()));
+        // the start-up sequence of FrontendContext::from_config
+        am.load_from_db().await.expect("load_from_db");
+        am.bootstrap_admin_user().await.expect("bootstrap_admin_user");
         am.load_from_db().await.expect("load_from_db");
         am
     }
